@@ -143,6 +143,14 @@ def buildFrame (pooled : PFrame) (fin : Bool) (opcode : UInt8) (payload : Option
 /-- The keys the environment reported for one call must be exactly the keys the call drew. -/
 def keysOk (used : Bool) (keys : List (List UInt8)) : Bool := if used then keys.length == 1 else keys.isEmpty
 
+/-- `buildFrame` with the keys the environment reported for the call: at most one, 4 bytes long, present iff drawn. -/
+def buildChecked (pooled : PFrame) (fin : Bool) (opcode : UInt8) (payload : Option (List UInt8)) (keys : List (List UInt8)) :
+    M (List UInt8) :=
+  if (keys.headD [0, 0, 0, 0]).length ≠ 4 then throw .env
+  else do
+    let r ← buildFrame pooled fin opcode payload (keys.headD [0, 0, 0, 0])
+    if keysOk r.2 keys then pure r.1 else throw .env
+
 /-- A pooled frame of length `n` whose header bytes are zero (`releaseFrame` resets them); the backing array has at least
 the 14 bytes `NewFrame` allocated. (Contents past the header are stale bytes in reality; `C16_wire_format` shows
 that they never reach the wire, whatever they are.) -/
@@ -163,14 +171,12 @@ def step (s : WS) (id : Nat) : WOp → M (Option (WS × Out))
       if (payload.length : Int) > s.max then
         pure (some (s, if async then { cbs := [(id, .tooBig)] } else { res := some .tooBig }))
       else if s.active then
-        let (fr, used) ← buildFrame PFrame.new true opcode (some payload) (keys.headD [])
-        if ¬ keysOk used keys then throw .env
+        let fr ← buildChecked PFrame.new true opcode (some payload) keys
         pure (submit s {} async id fr)
       else pure (some (s, if async then { cbs := [(id, .cancelled)] } else { res := some .cancelled }))
   | .frame async opcode fin payload flen keys => do
       if s.active then
-        let (fr, used) ← buildFrame (pooledFrame flen) fin opcode payload (keys.headD [])
-        if ¬ keysOk used keys then throw .env
+        let fr ← buildChecked (pooledFrame flen) fin opcode payload keys
         pure (submit s {} async id fr)
       else pure (some (s, if async then { cbs := [(id, .cancelled)] } else { res := some .cancelled }))
   | .flush async =>
@@ -180,8 +186,7 @@ def step (s : WS) (id : Nat) : WOp → M (Option (WS × Out))
   | .close async code reason keys => do
       if s.active then
         let payload := Spec.WsFrame.beBytes 2 (code % 65536) ++ reason
-        let (fr, used) ← buildFrame PFrame.new true 8 (some payload) (keys.headD [])
-        if ¬ keysOk used keys then throw .env
+        let fr ← buildChecked PFrame.new true 8 (some payload) keys
         pure (submit { s with active := false } {} async id fr)
       else pure (some (s, if async then { cbs := [(id, .cancelled)] } else { res := some .cancelled }))
   | .pump => pure (some (asyncRun (2 * s.pending.length + 4) s {} false))
